@@ -20,10 +20,10 @@ pub const OTHERS: [&str; 21] = [
     // non-ASCII and keyword-like names are names like any other
     "λ", "élan", "面积", "not", "and",
 ];
-const KINDS: usize = 8;
+const KINDS: usize = 10;
 const SWITCH: usize = 3;
 const FORMS: usize = 16;
-const USERS: usize = 3;
+const USERS: usize = 4;
 
 fn forms(n: &str) -> Vec<String> {
     vec![
@@ -90,10 +90,10 @@ impl Phase for Matrix {
             "{}   [context kind {} ({}), builtins {}, user function `{}` {}, variable `{}` {}]",
             src,
             kind,
-            ["HashMapContext", "clone", "after clear_functions", "after clear", "clone, original modified afterwards", "RecordingContext", "fixed empty contexts", "functions defined while builtins were disabled, switch set afterwards"][kind],
+            ["HashMapContext", "clone", "after clear_functions", "after clear", "clone, original modified afterwards", "RecordingContext", "fixed empty contexts", "functions defined while builtins were disabled, switch set afterwards", "after 256 x clear_functions", "after 65536 x clear_functions (256 for all but the first call form)"][kind],
             ["on", "off", "toggled twice (on)"][switch],
             name,
-            ["absent", "present", "present but failing"][user_mode],
+            ["absent", "present", "present but failing", "present but failing with FunctionIdentifierNotFound of another function"][user_mode],
             name,
             if var { "present" } else { "absent" }
         );
@@ -106,7 +106,8 @@ impl Phase for Matrix {
             m.vars.insert(name.to_string(), RV::Int(77));
         }
         if user {
-            m.funs.insert(name.to_string(), if user_mode == 1 { FnModel::Marker } else { FnModel::Fail });
+            let inner = if name == "typeof" { "len" } else { "typeof" };
+            m.funs.insert(name.to_string(), match user_mode { 1 => FnModel::Marker, 2 => FnModel::Fail, _ => FnModel::FailNotFound(inner) });
         }
         m.funs.insert("m".into(), FnModel::Marker);
         m.builtins_off = off;
@@ -171,6 +172,15 @@ impl Phase for Matrix {
             1 => c.clone(),
             2 => {
                 c.clear_functions();
+                model.funs.clear();
+                c
+            },
+            8 | 9 => {
+                // a long-lived context: cleared again and again (whatever counts the clears must not wrap around)
+                let n = if kind == 9 && form == 0 { 65536 } else { 256 };
+                for _ in 0..n {
+                    c.clear_functions();
+                }
                 model.funs.clear();
                 c
             },
